@@ -346,9 +346,17 @@ func (c *Chunker) Chunk(doc *model.Document) (*ChunkResult, error) {
 
 	// Process each section into chunks
 	chunkIndex := 0
-	for _, section := range sections {
+	var emit func(section *Section)
+	emit = func(section *Section) {
 		sectionChunks := c.chunkSection(section, &chunkIndex, doc.Metadata.Title)
 		result.Chunks = append(result.Chunks, sectionChunks...)
+		// subsections follow their parent's own content in document order
+		for _, child := range section.Children {
+			emit(child)
+		}
+	}
+	for _, section := range sections {
+		emit(section)
 	}
 
 	// If no sections were created, chunk by paragraphs
